@@ -8,7 +8,9 @@ let float_of_tok (t : string) : float =
   | "nan" | "-nan" -> nan
   | _ -> float_of_string t   (* accepts C99 hex floats *)
 
-let bits (x : float) : int64 = Int64.bits_of_float x
+(* NaNs have many bit patterns (the sign and payload of inf - inf differ from those of a parsed "nan"): one canonical pattern, so that
+   a callback table can be looked up at a NaN argument *)
+let bits (x : float) : int64 = if x <> x then 0x7ff8000000000000L else Int64.bits_of_float x
 let same (a : float) (b : float) : bool = (bits a = bits b) || (a <> a && b <> b)
 let same_list a b = List.length a = List.length b && List.for_all2 same a b
 let hex (x : float) : string = Printf.sprintf "%h" x
